@@ -208,4 +208,109 @@ theorem replay_same_verdict (H : Nat → Nat) (cfg : Cfg) (evs : List Event)
   have hg : RegGood H cfg.rejectDelta _ := run_good rfl evs _ (regGood_empty H _) hna
   exact replay_verdict (hg.2 inv hm) hf hh
 
+/-! ### meaning of the recorded terms -/
+
+/-- the payment-address test of the code for a new htlc: MPP record → its address equals the
+    invoice's; no MPP record → the invoice does not require an address or the call is a valid
+    keysend (the sender knows the preimage). -/
+def authCheck (H : Nat → Nat) (ctx : Ctx) (inv : Invoice) : Bool :=
+  match ctx.mpp with
+  | some (_, a) => decide (a = inv.payAddr)
+  | none => validKeysend H ctx || !inv.payAddrReq
+
+/-- **meaning of the recorded htlc terms** (ties the ghost field `authOk` and the stored fields
+    to the call that created the htlc): when NotifyExitHopHtlc records a new circuit key, the
+    record carries the amount, expiry and height of that call, the total of its MPP record (0 if
+    none) and `authOk` is the value of the payment-address test on that call. -/
+theorem accepted_htlc_terms {H : Nat → Nat} {ctx : Ctx} {inv : Invoice} {g : Htlc}
+    (hfresh : findHtlc inv ctx.key = none)
+    (hrec : findHtlc (inotify H ctx inv).1 ctx.key = some g) :
+    g.amt = ctx.amt ∧ g.expiry = ctx.expiry ∧ g.acceptHeight = ctx.height ∧
+    g.acceptTime = ctx.now ∧
+    g.mppTotal = (match ctx.mpp with | some (t, _) => t | none => 0) ∧
+    g.authOk = authCheck H ctx inv := by
+  have hr : replay H ctx inv = none := by unfold replay; simp [hfresh]
+  unfold inotify at hrec
+  simp only [hr] at hrec
+  cases hu : updateInvoice H ctx inv with
+  | mk u r =>
+    rw [hu] at hrec
+    cases u with
+    | none => simp only at hrec; rw [hfresh] at hrec; cases hrec
+    | add h ns =>
+      simp only at hrec
+      cases ha : applyAdd H inv h ns with
+      | none => rw [ha] at hrec; simp only at hrec; rw [hfresh] at hrec; cases hrec
+      | some inv' =>
+        rw [ha] at hrec; simp only at hrec
+        obtain ⟨f, hf, hl⟩ := applyAdd_htlcs ha
+        obtain ⟨gm, gk⟩ := findHtlc_some hrec
+        rw [hl] at gm
+        obtain ⟨x, hx, rfl⟩ := List.mem_map.mp gm
+        rw [hf.key] at gk
+        have hxh : x = h := by
+          rcases List.mem_append.mp hx with hx | hx
+          · exact absurd gk (findHtlc_none hfresh x hx)
+          · simpa using hx
+        subst hxh
+        rw [hf.amt, hf.expiry, hf.acceptHeight, hf.mppTotal, hf.authOk]
+        have hat : (f x).acceptTime = x.acceptTime := by rw [hf x]
+        rw [hat]
+        unfold updateInvoice at hu
+        by_cases c : (ctx.amp && ctx.mpp.isNone) = true
+        · simp [c] at hu
+        · rw [if_neg c] at hu
+          cases hm : ctx.mpp with
+          | none =>
+            rw [hm] at hu; simp only at hu
+            obtain ⟨_, _, _, _, _, _, _, hh, _⟩ := updateLegacy_add hu
+            subst hh
+            simp [mkHtlc, authCheck, hm]
+          | some ta =>
+            obtain ⟨t, a⟩ := ta
+            rw [hm] at hu; simp only at hu
+            obtain ⟨_, _, _, _, _, _, _, _, hh, _⟩ := updateMpp_add hu
+            subst hh
+            simp [mkHtlc, authCheck, hm]
+
+/-! ### non-vacuity: concrete runs (hash function `p ↦ p + 1000`) -/
+
+def exH : Nat → Nat := fun p => p + 1000
+def exCfg : Cfg := { rejectDelta := 4, acceptKeysend := false, ksHold := false, hold := 30, sql := false }
+def exInv : InvSpec :=
+  { hash := 1007, value := 100, payAddr := 55, preimage := some 7, finalCltv := 9, tlv := true,
+    payAddrOpt := false, payAddrReq := true, mppOpt := true, ampReq := false, hodl := false }
+def exShard (key amt : Nat) : Ctx :=
+  { hash := 1007, key := key, amt := amt, expiry := 120, height := 100, rejectDelta := 0,
+    mpp := some (100, 55), amp := false, ks := none, now := 0 }
+
+/-- two shards of 60 + 40 towards a 100 msat invoice: the second call settles with preimage 7,
+    the first shard is settled through its hodl subscription. -/
+example :
+    (step exH exCfg (run exH exCfg Reg.empty [.addInvoice exInv, .notify (exShard 1 60)])
+      (.notify (exShard 2 40))).2.reply = .res (.settle .settled 7 100) ∧
+    (step exH exCfg (run exH exCfg Reg.empty [.addInvoice exInv, .notify (exShard 1 60)])
+      (.notify (exShard 2 40))).2.msgs = [(1, .settle .settled 7 100)] := by
+  decide
+
+/-- one msat short: no settle, the invoice stays open; a replay of shard 1 is answered `accept`. -/
+example :
+    (step exH exCfg (run exH exCfg Reg.empty [.addInvoice exInv, .notify (exShard 1 60)])
+      (.notify (exShard 2 39))).2.reply = .res (.accept .partialAccepted) ∧
+    (step exH exCfg (run exH exCfg Reg.empty [.addInvoice exInv, .notify (exShard 1 60),
+      .notify (exShard 2 39)]) (.notify (exShard 1 60))).2.reply = .res (.accept .replayToAccepted) := by
+  decide
+
+/-- the hold timer: after 30 s the first shard is canceled, its replay is answered `fail`. -/
+example :
+    (step exH exCfg (run exH exCfg Reg.empty [.addInvoice exInv, .notify (exShard 1 60), .tick 30])
+      (.notify (exShard 1 60))).2.reply = .res (.fail .replayToCanceled 100) := by
+  decide
+
+/-- the hypotheses of the theorems are satisfiable: the events above add no AMP invoice. -/
+example : ∀ x ∈ [Event.addInvoice exInv, .notify (exShard 1 60), .tick 30], x.noAmp := by
+  intro x hx
+  simp at hx
+  rcases hx with rfl | rfl | rfl <;> simp [Event.noAmp, exInv]
+
 end LndModel.C15
